@@ -523,6 +523,9 @@ def gen_pole(rng):
         c['ics'].append(['y', fl(bad)])
     if rng.random() < 0.4:
         c['eqs'].append(['z', '%s*x + %s*z + 1.0' % (fl(0.3), fl(0.2))])
+    if rng.random() < 0.35:
+        # an undamped oscillation that only the half-step damping settles, next to the (possibly persistent) error
+        c['eqs'].append(['w', '%s - w' % fl(round(rng.uniform(1, 9), 1))])
     if rng.random() < 0.3:
         c['eqs'].append(['d', '1/x'])
     c['info'] = {'persistent': persistent}
